@@ -270,6 +270,57 @@ def diff_dumps(real: List[Dict[str, Any]], model: List[Dict[str, Any]], ignore=(
 
 
 # ---------------------------------------------------------------------------------------------
+# what a REJECTED add_child leaves behind on the rejected child
+# ---------------------------------------------------------------------------------------------
+# C02 speaks of documents obtained "by attaching children through the model's constructors and add-child operations" and
+# demands that each element "refers to its ACTUAL CONTAINER as parent" and that its metadata records "that container's
+# id and type".  An add_child that raises attaches nothing: the container does not list the child afterwards, so the
+# clause says nothing about the link the call may or may not have written on the child before it raised (the code as it is
+# re-parents the child first and raises then; rejecting before touching the child is no less conformant — if anything the
+# child then still refers to the container it really has).  So from a rejected add_child(p, c) on, the fields a
+# `c.set_parent(p)` writes — c.parent, metadata['parent_id'], ['parent_type'], ['<main type of p>_id'] — are NOT compared on
+# node c, each until a later (non-raising) operation writes it again in the model; everything else (the outcome
+# raised-or-not, the child lists of p and of every other object, all other fields and keys of c, all other nodes) stays
+# compared exactly, and so does the tree discipline `Pre`, which is evaluated on the child lists only.
+
+def rejected_link_fields(op: Dict[str, Any], out: Dict[str, Any], *stores) -> set:
+    """the dump fields of node op['c'] left undetermined by this step ('parent', 'md:<key>'), empty unless the step is a
+    rejected add_child; `stores`: dumps after the step (real, model) — the main type of the rejecting container"""
+    if op.get('op') != 'addChild' or 'raised' not in out:
+        return set()
+    for st in stores:
+        # an add_child that raises AFTER it has put the child into one of the container's lists (a child without
+        # coordinates …) has attached it: the container is then the child's actual container and everything is compared
+        if not (0 <= op['p'] < len(st)) or any(op['c'] in st[op['p']].get(name, []) for name in DUMP_LISTS.values()):
+            return set()
+    fields = {'parent', 'md:parent_id', 'md:parent_type'}
+    for st in stores:
+        mt = st[op['p']].get('main_type') if 0 <= op['p'] < len(st) else None
+        if isinstance(mt, str):
+            fields.add(f'md:{mt}_id')
+    return fields
+
+
+def mask_fields(dump: List[Dict[str, Any]], free: Dict[int, set]) -> List[Dict[str, Any]]:
+    if not any(free.values()):
+        return dump
+    out = list(dump)
+    for n, fields in free.items():
+        if not fields or not (0 <= n < len(out)):
+            continue
+        d = dict(out[n])
+        if 'parent' in fields:
+            d['parent'] = '<free>'
+        d['md'] = {k: v for k, v in d['md'].items() if 'md:' + k not in fields}
+        out[n] = d
+    return out
+
+
+def field_of(node: Dict[str, Any], field: str) -> Any:
+    return node.get('parent') if field == 'parent' else node['md'].get(field[3:], '<missing>')
+
+
+# ---------------------------------------------------------------------------------------------
 # history generator
 # ---------------------------------------------------------------------------------------------
 
@@ -636,6 +687,36 @@ def enum_attach() -> List[List[Dict[str, Any]]]:
             ops.append(add)
             if ctx == 'scan-after':
                 wrap(1)
+        out.append(ops)
+    return out
+
+
+def enum_rejected() -> List[List[Dict[str, Any]]]:
+    """an add_child that is rejected (a region / page cannot hold a word or a table), and the rejected child attached
+    properly afterwards: whatever the rejected call left on the child (see rejected_link_fields), the later attachment
+    must write the link and the provenance of the real container, and below a scan the scan's id"""
+    out = []
+    A = lambda i, **k: dict({'id': {'s': i}, 'coords': 1}, **k)  # noqa
+    for P, child, ctx, stale in itertools.product(['region', 'page'], ['word', 'table'], ['none', 'scan'], [False, True]):
+        md = [['parent_id', {'s': 'stale'}], ['page_id', {'s': 'stale'}]] if stale else []
+        ops: List[Dict[str, Any]] = []
+        if child == 'word':
+            ops.append({'op': 'mkWord', 'a': A('w', text='t', md=md)})                          # node 0
+        else:
+            ops.append({'op': 'mkTable', 'a': A('t', md=md), 'rows': []})                        # node 0
+        ops.append({'op': 'mkRegion' if P == 'region' else 'mkPage', 'a': A('p')})               # node 1
+        if ctx == 'scan':
+            ops.append({'op': 'mkScan', 'a': A('s'), ('regions' if P == 'region' else 'pages'): [1]})   # node 2
+        n = len(ops)
+        ops.append({'op': 'addChild', 'p': 1, 'c': 0})                                           # rejected
+        ops.append({'op': 'addChild', 'p': 1, 'c': 0})                                           # … twice
+        if child == 'word':
+            ops.append({'op': 'mkLine', 'a': A('l', text='t'), 'words': [0]})                    # node n: the real container
+            ops.append({'op': 'addChild', 'p': 1, 'c': n})
+        else:
+            ops.append({'op': 'mkRegion', 'a': A('r2'), 'tables': [0]})                          # node n
+            ops.append({'op': 'addChild', 'p': 1, 'c': n})
+        ops.append({'op': 'setParentage', 'p': 1})
         out.append(ops)
     return out
 
@@ -1201,7 +1282,11 @@ class C02(Check):
                   'get_words / inner regions / reading order, repr, types) after EVERY operation before the store is dumped; a '
                   'parsed scan is observed, another document with the same ids and the same text are parsed in the same process, '
                   'and both the first scan\'s objects and the second parse must repeat the first dump; a JSON view is taken twice '
-                  'and rebuilt twice (string and dictionary form), source and rebuilt objects re-dumped afterwards')
+                  'and rebuilt twice (string and dictionary form), source and rebuilt objects re-dumped afterwards.  '
+                  'Correspondence level: an add_child that raises attaches nothing, and the statement speaks of the ACTUAL container '
+                  'only — what such a call leaves on the rejected child (its parent field and the metadata keys parent_id, parent_type, '
+                  '<type of the rejecting container>_id; the model mirrors "re-parented first") is not compared on that node until a '
+                  'later operation writes the field again; raised-or-not, all child lists and all other fields stay exact')
     assumptions = [
         'histories are sequences of the modelled operations (constructors, add_child, set_parent, set_as_parent, '
         'the parser\'s attach statements, set_parentage, add_type/remove_type, has_type/types); attributes are not '
@@ -1249,6 +1334,8 @@ class C02(Check):
             root = {'scan': lambda: g.scan(d), 'page': lambda: g.page(d), 'region': lambda: g.region(d),
                     'column': lambda: g.region(d, col=True), 'line': g.line}[top]()
             out.append(Case('json', {'ops': g.ops, 'root': root}, ['json']))
+        for ops in enum_rejected():
+            out.append(Case('history', {'ops': ops}, ['enum-rejected']))
         return out
 
     # ------------------------------------------------------------------ implementation
@@ -1370,6 +1457,8 @@ class C02(Check):
             ms, rs = m['ok'], impl_out['steps']
             if len(ms) != len(rs):
                 return f'{len(rs)} real steps, {len(ms)} model steps'
+            free: Dict[int, set] = {}       # node -> fields a rejected add_child left undetermined (see rejected_link_fields)
+            prev_model: List[Dict[str, Any]] = []
             for i, (r, mm) in enumerate(zip(rs, ms)):
                 if 'err' in r or 'err' in mm:
                     if r.get('err') != mm.get('err'):
@@ -1383,11 +1472,21 @@ class C02(Check):
                 pre_real = pre_ok(rs[i - 1]['store'] if i else [], case.input['ops'][i])
                 if pre_real != mm['pre']:
                     return f'step {i} ({case.input["ops"][i]["op"]}): precondition impl-side={pre_real} model={mm["pre"]}'
-                d = diff_dumps(r['store'], model_dump(mm['store']))
+                md = model_dump(mm['store'])
+                rejected = rejected_link_fields(case.input['ops'][i], r['out'], r['store'], md)
+                if rejected:
+                    free.setdefault(case.input['ops'][i]['c'], set()).update(rejected)
+                elif free and 'raised' not in r['out']:
+                    # a field the operation wrote again in the model is determined again
+                    for n, fields in free.items():
+                        if n < len(prev_model) and n < len(md):
+                            fields -= {f for f in fields if field_of(md[n], f) != field_of(prev_model[n], f)}
+                d = diff_dumps(mask_fields(r['store'], free), mask_fields(md, free))
                 if d:
                     return f'step {i} ({case.input["ops"][i]["op"]}): {d}'
                 if len(mm['store']) != len(r['store']):
                     return f'step {i}: {len(r["store"])} objects, {len(mm["store"])} model nodes'
+                prev_model = md
             return None
         if 'err' in impl_out or 'err' in m:
             return None if impl_out.get('err') == m.get('err') else f'impl={impl_out.get("err")} model={m.get("err")}'
